@@ -1382,7 +1382,7 @@ def plan_sessions(ctx, oracle, engines, harness_exe, traced):
             if not s.get("mt") or s.get("mt_trace"):
                 s["trace"] = os.path.join(d, "trace-%d.txt" % s["idx"])
     dpos = [(f, d) for f, d, _ in mates] + [(f, None) for f in endg[:ctx.scale(8, 60)]] + [(f, None) for f in mated]
-    hpos = dtm_endgames(rng, oracle, ctx.scale(32, 300), 4, 12, kinds=K3)
+    hpos = dtm_endgames(rng, oracle, ctx.scale(28, 300), 4, 12, kinds=K3)
     return sessions, dpos, hpos
 
 
@@ -1481,7 +1481,7 @@ def run(ctx):
     # traced only where the mate is too far to be found at that depth (small traces: few mate-score
     # nodes, but record X of hook H3b is written whatever the scores are)
     htraces = [os.path.join(tdir, "htrace-%d.txt" % i) if traced and hpos[i][1][1] >= 8 else None for i in range(len(hreqs))]
-    htimeout = ctx.scale(90, 600)
+    htimeout = ctx.scale(60, 600)
 
     def run_helper(i):
         env = {"TEXEL_VERIF_TRACE": htraces[i] or ""}
@@ -1690,6 +1690,13 @@ def replay(ctx, body):
             return
         print("failing input:", json.dumps(f, indent=1))
         fen = f["fen"]
+        if str(f.get("request", "")).startswith("H "):
+            rc, out, err = sh([harness_exe], input=f["request"] + "\n", timeout=120, env={"TEXEL_VERIF_TRACE": ""})
+            print("search with emulated helper now:", "rc=%s" % rc, out.strip()[:600])
+            if rc == 0 and out.strip() and not out.startswith("ERR"):
+                print("re-check:", check_helper_runs(oracle, [f["request"]], [out.strip()], 3, {}))
+            print("exact oracle:", oracle.dtm(fen))
+            return
         if str(f.get("request", "")).startswith("D "):
             # directed node search: the table state of the original run is not reproduced (fresh table)
             print("directed node search now returns:", batch(harness_exe, [f["request"]]))
